@@ -195,6 +195,9 @@ class Tle:
             TleParseError
         """
 
+        if len(text) < 2:
+            raise TleParseError(f"Invalid TLE: expected 2 lines, got {len(text)}.")
+
         if not text[0].lstrip().startswith("1 ") or not text[1].lstrip().startswith(
             "2 "
         ):
